@@ -93,6 +93,7 @@ def run(ctx):
     C18.foreign_needle_rule(ctx, prog, 'Q4')
     from rules.C18 import cli_memory_rules
     cli_memory_rules(ctx, prog, cg, DISABLE, 'Q8')
+    C18.old_content_intact_rule(ctx, prog, cg, DISABLE, 'Q5')
     from rules.C18 import whole_file_read_rule
     whole_file_read_rule(ctx, prog, cg, 'Q1')
     # ---- Q5 ------------------------------------------------------------------------------------------
